@@ -193,6 +193,9 @@ def _r38(ctx, prog, M):
 
     INS = ("append", "insert", "addnext", "addprevious", "insert_element_before", "extend")
     nsites = 0
+    from checks.c10_sites import insertion_wrappers
+
+    wrappers = insertion_wrappers(prog, M)    # methods that only wrap insert_element_before: a call of one is an insertion
 
     def shared_source(e, f, depth=0):
         """description of a long-lived store `e` reads an element from, or None"""
@@ -247,9 +250,9 @@ def _r38(ctx, prog, M):
             if not (isinstance(n, ast.Call) and isinstance(n.func, ast.Attribute)):
                 continue
             a = n.func.attr
-            if not (a in INS or a.startswith("_insert_")) or not n.args:
+            if not (a in INS or a.startswith("_insert_") or a in wrappers) or not n.args:
                 continue
-            arg = n.args[1] if a == "insert" and len(n.args) > 1 else n.args[0]
+            arg = n.args[1] if a == "insert" and len(n.args) > 1 else n.args[wrappers[a][1]] if (a in wrappers and len(n.args) > wrappers[a][1]) else n.args[0]
             nsites += 1
             src = shared_source(arg, f)
             if src:
